@@ -100,6 +100,9 @@ def gen_defn(rng, tier, i=0):
                         depth=1, n_shared=(1, 3))
         d["large"] = True
         return d
+    if i % 8 == 6:
+        return gen.integer_linear_program(rng, n_state=(2, 4), n_control=(1, 3), n_calib=(0, 1), n_sensor=(1, 2),
+                                          n_reading=(2, 4), depth=1, n_shared=(0, 0))
     if i % 4 == 3:
         return gen.linear_in_state_program(rng, n_state=(2, 4), n_control=(1, 3), n_calib=(0, 2), n_sensor=(1, 2),
                                            n_reading=(1, 3), depth=1, n_shared=(0, 0))
@@ -121,6 +124,8 @@ def run_unit(unit, ctx):
     defn = gen_defn(rng, ctx["tier"], unit["i"])
     if defn.get("family") == "linear_in_state":
         R.stats.inc("linear_in_state_programs")
+    if defn.get("family") == "integer_linear":
+        R.stats.inc("integer_linear_programs")
     fp = gen.fingerprint(defn)
     R.fps_all.append(fp)
     if rectangular(defn):
